@@ -82,6 +82,9 @@ func (inv *authInv) classify(m *Machine, a *Action) (id, why string) {
 			return "C10.I1.gateway-only", fmt.Sprintf("the caller %s is not the configured gateway", c.Addr.Hex())
 		}
 	case a.Kind == "price":
+		if a.Co > 0 {
+			return "C10.I4.price-signature", "the transaction carries a report in the name of a second validator whose signature was made with the first validator's key"
+		}
 		if a.Sig != int(sim.SigValid) {
 			return "C10.I4.price-signature", fmt.Sprintf("the price transaction is not signed by the consensus key it names (signature kind %d)", a.Sig)
 		}
@@ -172,6 +175,9 @@ func (inv *authInv) probeClass(m *Machine, a *Action) string {
 	case gatewayOnly(a.Kind):
 		return a.Kind + "/caller=" + inv.identClass(m, m.caller(a.Caller))
 	case a.Kind == "price":
+		if a.Co > 0 {
+			return "price/forged-cosigner"
+		}
 		return fmt.Sprintf("price/sig=%d", a.Sig)
 	case a.Kind == "updateParams":
 		return fmt.Sprintf("updateParams/%s/authority=%v/forge=%d", a.Module, a.Ident >= 0, a.Forge)
